@@ -1,7 +1,9 @@
 /*
  * env.c: definitions of the ivw_* symbols (see env.h, DESIGN.md 2.3).
  */
+#ifndef _GNU_SOURCE
 #define _GNU_SOURCE
+#endif
 #include <errno.h>
 #include <fcntl.h>
 #include <stdarg.h>
@@ -44,10 +46,31 @@ long long env_ts_diff_ns(const struct timespec *a, const struct timespec *b)
 static unsigned char fdk[MAXFD];
 static struct { int armed; struct timespec exp; } tfd[MAXFD];
 
+static signed char fdowner[MAXFD];
+int (*env_owner_hook)(void);
+
 static void set_kind(int fd, int k)
 {
-	if (fd >= 0 && fd < MAXFD)
+	if (fd >= 0 && fd < MAXFD) {
 		fdk[fd] = k;
+		fdowner[fd] = env_owner_hook ? env_owner_hook() : 0;
+	}
+}
+
+int env_fd_owner(int fd)
+{
+	return (fd >= 0 && fd < MAXFD) ? fdowner[fd] : -1;
+}
+
+int env_next_timerfd(struct timespec *out)
+{
+	int i, have = 0;
+	for (i = 0; i < MAXFD; i++)
+		if (fdk[i] == ENV_FD_TIMERFD && tfd[i].armed && (!have || env_ts_cmp(&tfd[i].exp, out) < 0)) {
+			*out = tfd[i].exp;
+			have = 1;
+		}
+	return have;
 }
 
 int env_fd_kind(int fd)
@@ -540,7 +563,7 @@ int env_real_poll0(struct env_wait *w)
 	return r;
 }
 
-static void compute_deadlines(struct env_wait *w)
+void env_compute_deadlines(struct env_wait *w)
 {
 	int i;
 	if (w->timeout_ns >= 0) {
@@ -568,7 +591,7 @@ static int generic_wait(struct env_wait *w)
 	int n;
 
 	env_wait_count++;
-	compute_deadlines(w);
+	env_compute_deadlines(w);
 	if (env_wait_ops.entry)
 		env_wait_ops.entry(w);
 	if (env_wait_ops.fault_eintr && env_wait_ops.fault_eintr(w)) {
@@ -606,7 +629,7 @@ static int generic_wait(struct env_wait *w)
 			goto out;
 		}
 		default:
-			compute_deadlines(w);
+			env_compute_deadlines(w);
 			break;
 		}
 	}
@@ -945,4 +968,11 @@ const char *__ubsan_default_options(void)
 const char *__tsan_default_options(void)
 {
 	return "exitcode=44:halt_on_error=1:second_deadlock_stack=1:report_signal_unsafe=0";
+}
+
+/* C14 allows exactly these idempotent one-way feature-detection flags */
+const char *__tsan_default_suppressions(void)
+{
+	return "race:^inited$\nrace:^epoll_support$\nrace:^epoll_pwait2_support$\nrace:^eventfd_in_use$\nrace:^pipe2_support$\n"
+	       "race:^splice_available$\nrace:^iv_event_use_event_raw$\nrace:^clock_source$\nrace:^method$\n";
 }
